@@ -12,12 +12,17 @@ text-mode line iteration with `newline=""`, the `csv.reader` automaton with its 
 and its round trip is proved for ALL grids (`csv_read_write`, `csv_reader_grammar`,
 `csv_file_roundtrip`); the model of the library is tied to the real `csv` module on every run.
 
+JSON string literals (`Rpft/JsonText.lean`: `encode_basestring` with `ensure_ascii=False`, the strict
+`scanstring`) round-trip for every string (`json_string_roundtrip`); the JSON document structure does not
+belong to the model.
+
 What is NOT proved (`C14_full` below): that the XLSX and JSON byte formats (openpyxl, `json`)
 deliver the written grid.  That part is library code; it is exercised on every run by the harness
 (trusted base §3.4), not modelled.
 -/
 import Rpft.Lemmas.Sheets
 import Rpft.Lemmas.Csv
+import Rpft.Lemmas.JsonText
 import Rpft.Gen.Tables
 set_option linter.unusedSimpArgs false
 set_option linter.unusedVariables false
@@ -609,6 +614,43 @@ theorem csv_reader_quirks :
     parseCsv "x\r\r\ny".toList = .ok [["x".toList], [], ["y".toList]] := by decide
 
 end CsvBytes
+
+/-! ### JSON, the string literals: `json.dumps(…, ensure_ascii=False)` → `json.load` -/
+
+section JsonStrings
+open Rpft.JsonText
+
+/-- **JSON string literal round trip**: what `to_json` writes for a cell / header / sheet name,
+`json.load`'s strict string scanner reads back as exactly that text, and it stops right after the
+closing quote — for EVERY string (quotes, backslashes, control characters, newlines, DEL, U+2028,
+any Unicode), with no hypothesis. -/
+theorem json_string_roundtrip (s rest : Str) : scanStr (encodeString s ++ rest) = .ok (s, rest) :=
+  scanStr_encodeString s rest
+
+/-- … hence the writer of string literals loses nothing -/
+theorem encodeString_injective (a b : Str) (h : encodeString a = encodeString b) : a = b := by
+  have h1 := json_string_roundtrip a []
+  have h2 := json_string_roundtrip b []
+  rw [h] at h1
+  rw [h1] at h2
+  exact congrArg Prod.fst (Except.ok.inj h2)
+
+/-- what the literal looks like, and what the scanner accepts beyond the writer's output: `\/`,
+upper-case hex, surrogate pairs; what it refuses: a raw control character (strict), an unknown
+escape, three hex digits, `\uXXXX` as the very last characters; a lone surrogate is outside `Char` -/
+theorem json_string_facts :
+    encodeString "a\"b\\c/\n\r\t\x08\x0c\x00\x1f\x7fé".toList
+      = "\"a\\\"b\\\\c/\\n\\r\\t\\b\\f\\u0000\\u001f\x7fé\"".toList ∧
+    scanStr "\"\\/\\u00E9\\ud83d\\uDE00\"x".toList = .ok ("/é😀".toList, "x".toList) ∧
+    scanStr "\"a\nb\"".toList = .error .controlChar ∧
+    scanStr "\"\\a\"".toList = .error .invalidEscape ∧
+    scanStr "\"\\u12\"".toList = .error .invalidUnicodeEscape ∧
+    scanStr "\"\\u0041".toList = .error .invalidUnicodeEscape ∧
+    scanStr "\"\\ud83d\\uzzzz\"".toList = .error .invalidUnicodeEscape ∧
+    scanStr "\"abc".toList = .error .unterminated ∧
+    scanStr "\"\\ud83dx\"".toList = .error .loneSurrogate := by decide
+
+end JsonStrings
 
 /-! ### the three formats together, and `convert` followed by compilation -/
 
